@@ -325,6 +325,8 @@ func (l *websocketTransportListener) ServeHTTP(writer http.ResponseWriter, reque
 
 	select {
 	case <-l.done:
+		// The listener was closed before the connection was accepted
+		_ = conn.Close()
 	case l.connChan <- conn:
 	}
 }
